@@ -84,6 +84,50 @@ def correspond(ctx):
             ctx.violation("accuracy", f"expm_krylov on an invariant subspace of dimension {c['r']} is off by {err:.3e}", {"oracle": "skeleton", **c})
 
 
+def local_exact(seed, L, chi, dt, which):
+    """update_site / update_bond on the environments of a real random MPS vs expm of the local operator assembled column by column
+    from the projector (independent of the evolution helper)."""
+    import mqt.yaqs.core.methods.tdvp as T
+    from mqt.yaqs.core.data_structures.networks import MPO, MPS
+    rng = np.random.default_rng(seed)
+    dims = [1] + [min(chi, 2 ** min(i + 1, L - 1 - i)) for i in range(L - 1)] + [1]
+    tens = [rng.normal(size=(2, dims[i], dims[i + 1])) + 1j * rng.normal(size=(2, dims[i], dims[i + 1])) for i in range(L)]
+    st = MPS(L, tensors=tens, physical_dimensions=[2] * L)
+    st.normalize("B")
+    dims = [1] + [t.shape[2] for t in st.tensors]
+    H = MPO.ising(L, float(rng.uniform(0.4, 1.2)), float(rng.uniform(0.3, 1.0)))
+    right = T.initialize_right_environments(st, H)
+    i = int(rng.integers(0, L - 1))
+    wl = H.tensors[0].shape[2]
+    left = np.zeros((1, wl, 1), dtype=complex); left[0, 0, 0] = 1  # boundary
+    # the boundary block of single_site_tdvp: identity over the MPO's left bond
+    left = np.zeros((dims[0], wl, dims[0]), dtype=complex)
+    for a in range(dims[0]):
+        for w in range(wl):
+            left[a, w, a] = 1
+    for j in range(i):
+        left = T.update_left_environment(st.tensors[j], st.tensors[j], H.tensors[j], left)
+    if which == "site":
+        x = st.tensors[i]
+        proj = lambda t: T.project_site(left, right[i], H.tensors[i], t)
+        out = T.update_site(left, right[i], H.tensors[i], x.copy(), dt)
+    else:
+        left2 = T.update_left_environment(st.tensors[i], st.tensors[i], H.tensors[i], left)
+        x = rng.normal(size=(dims[i + 1], dims[i + 1])) + 1j * rng.normal(size=(dims[i + 1], dims[i + 1]))
+        proj = lambda t: T.project_bond(left2, right[i], t)
+        out = T.update_bond(left2, right[i], x.copy(), dt)
+    n = x.size
+    hm = np.zeros((n, n), dtype=complex)
+    for k in range(n):
+        e = np.zeros(n, dtype=complex); e[k] = 1
+        hm[:, k] = np.asarray(proj(e.reshape(x.shape))).reshape(-1)
+    defect = np.linalg.norm(hm - hm.conj().T) / max(np.linalg.norm(hm), 1e-300)
+    ref = scipy.linalg.expm(-1j * dt * hm) @ x.reshape(-1)
+    err = np.linalg.norm(np.asarray(out).reshape(-1) - ref) / np.linalg.norm(x)
+    w = np.linalg.eigvalsh((hm + hm.conj().T) / 2)
+    return err, defect, n, float(w[-1] - w[0])
+
+
 def accuracy_oracle(args):
     from mqt.yaqs.core.methods.matrix_exponential import expm_arnoldi, expm_krylov
 
@@ -180,6 +224,12 @@ def accuracy_oracle(args):
             return (f"expm_krylov error {np.linalg.norm(out - ref) / np.linalg.norm(v):.3e} on a nearly invariant Krylov space "
                     f"({sub}, size {a.shape[0]}, scale {args['eps']:.1e}, dt={dt:.3g})")
         return None
+    if kind == "local_exact":
+        err, defect, nloc, width = local_exact(args["seed"], args["L"], args["chi"], dt, args["which"])
+        if defect < 1e-9 and width * abs(dt) <= 12 and err > 1e-8:
+            return (f"update_{args['which']} on a local space of {nloc} entr{'y' if nloc == 1 else 'ies'} (bond dimension {args['chi']}) differs from exp(-i dt H_loc) "
+                    f"by {err:.3e} (relative), dt={dt}")
+        return None
     if kind == "numba":
         big = args["n"]
         d = rng.uniform(-2, 2, size=big)
@@ -235,6 +285,10 @@ def search(ctx):
         plan.append(dict(kind="nearly_invariant", sub=sub, seed=int(ctx.rng.integers(0, 2**31)), n=int(ctx.rng.integers(12, 45)),
                          d1=int(ctx.rng.integers(1, 5)), eps=float(10 ** ctx.rng.uniform(-8, -6.7)) if sub != "small_units" else float(10 ** ctx.rng.uniform(-7, -3)),
                          dt=float(ctx.rng.choice([-1.2, 1.0, 1.5]))))
+    for k in range(ctx.scale(18, 200)):
+        # local TDVP updates on the environments of real states, down to product states (one-entry bond tensors)
+        plan.append(dict(kind="local_exact", seed=int(ctx.rng.integers(0, 2**31)), n=0, L=int(ctx.rng.integers(2, 6)), chi=[1, 1, 2, 3, 4, 6][k % 6],
+                         which=["bond", "site"][k % 2], dt=float(ctx.rng.choice([-0.7, 0.05, 0.3, 0.7]))))
     plan += [dict(kind="numba", seed=1, n=4095, dt=0.1), dict(kind="numba", seed=2, n=4096, dt=0.1), dict(kind="numba", seed=3, n=1200, dt=-0.2)]
     if not ctx.quick:
         plan += [dict(kind="numba", seed=4, n=5000, dt=0.05)]
